@@ -25,6 +25,9 @@ import (
 type StoreCfg struct {
 	Name      string `json:"name"`
 	Transient bool   `json:"transient,omitempty"`
+	// From: the store is mounted only from the From-th clean reopen on (0 = from the start): an application
+	// that adds a store in a later release. Its IAVL version numbering then differs from the multistore's.
+	From int `json:"from,omitempty"`
 }
 
 type Pruning struct {
@@ -92,6 +95,8 @@ type model struct {
 	latest   int64
 	pr       Pruning
 	// version 0 exists implicitly (empty)
+	first     []int64 // per store: multistore version of the first commit that contained it (0 = none yet)
+	transient []bool
 }
 
 func newModel(n int, pr Pruning) *model {
@@ -99,6 +104,8 @@ func newModel(n int, pr Pruning) *model {
 	for i := 0; i < n; i++ {
 		m.work = append(m.work, content{})
 	}
+	m.first = make([]int64, n)
+	m.transient = make([]bool, n)
 	return m
 }
 
@@ -108,10 +115,22 @@ func (m *model) retained(x int64) bool {
 	if x < 1 || x > m.latest {
 		return false
 	}
-	if x >= m.latest-m.pr.KeepRecent {
-		return true
+	// every IAVL store prunes in its own version numbering (own version 1 = its first commit); a multistore
+	// version is readable when every store that existed at that version still has its part of it
+	for i, f := range m.first {
+		if m.transient[i] || f == 0 || x < f {
+			continue
+		}
+		own, ownLatest := x-f+1, m.latest-f+1
+		if own >= ownLatest-m.pr.KeepRecent {
+			continue
+		}
+		if m.pr.KeepEvery != 0 && own%m.pr.KeepEvery == 0 {
+			continue
+		}
+		return false
 	}
-	return m.pr.KeepEvery != 0 && x%m.pr.KeepEvery == 0
+	return true
 }
 
 // ---------------------------------------------------------------- executor
@@ -129,6 +148,23 @@ type exec struct {
 	commitIdx int
 	pendingOps []Step // writes since the last commit, in order (re-applied verbatim after a crash)
 	commitEvents map[int]int // commit ordinal -> number of write events (counting runs)
+	epoch   int   // clean reopens so far (stores with From > epoch are not mounted yet)
+	crashed bool  // a crash was injected in this run
+	cmpV    int64 // version being compared by compareContent (0 = the working state)
+}
+
+func (e *exec) mounted(i int) bool { return e.tr.Stores[i].From <= e.epoch }
+
+// comparable: store i's content at version v is defined (a store mounted later did not exist at earlier versions;
+// what LoadVersion shows for it there is outside the statement)
+func (e *exec) comparable(i int, v int64) bool {
+	if !e.mounted(i) {
+		return false
+	}
+	if v == 0 || e.tr.Stores[i].Transient {
+		return true
+	}
+	return e.m.first[i] != 0 && v >= e.m.first[i]
 }
 
 func (e *exec) viol(prop, oracle string, attrs map[string]string, f string, a ...interface{}) {
@@ -163,6 +199,9 @@ func (e *exec) open(db *simdb.DB) (rs *rootmulti.Store, err error) {
 	rs.SetPruning(stypes.NewPruningOptions(e.tr.Pruning.KeepRecent, e.tr.Pruning.KeepEvery))
 	rs.SetLazyLoading(e.tr.Lazy)
 	for i, sc := range e.tr.Stores {
+		if !e.mounted(i) {
+			continue
+		}
 		typ := stypes.StoreTypeIAVL
 		if sc.Transient {
 			typ = stypes.StoreTypeTransient
@@ -228,6 +267,9 @@ func pairsEqual(a, b [][2]string) bool {
 func (e *exec) compareContent(rs *rootmulti.Store, want []content, prop, oracle string, attrs map[string]string, what string) bool {
 	ok := true
 	for i, sc := range e.tr.Stores {
+		if !e.comparable(i, e.cmpV) {
+			continue
+		}
 		st := rs.GetKVStore(e.keys[i])
 		for _, rev := range []bool{false, true} {
 			got, err := dump(st, rev)
@@ -272,6 +314,9 @@ func execute(tr *Trace) (*core.Result, error) {
 		}
 	}
 	e.m = newModel(len(tr.Stores), tr.Pruning)
+	for i, sc := range tr.Stores {
+		e.m.transient[i] = sc.Transient
+	}
 	rs, err := e.open(e.db)
 	if err != nil {
 		return nil, fmt.Errorf("cannot open an empty store: %v", err)
@@ -309,7 +354,7 @@ func (e *exec) do(s *Step) {
 	st := e.res.Stats
 	switch s.Op {
 	case "set", "delete":
-		if s.Store < 0 || s.Store >= len(e.keys) {
+		if s.Store < 0 || s.Store >= len(e.keys) || !e.mounted(s.Store) {
 			return
 		}
 		kv := e.rs.GetKVStore(e.keys[s.Store])
@@ -330,6 +375,7 @@ func (e *exec) do(s *Step) {
 	case "commit":
 		e.commit(s)
 	case "reopen":
+		e.epoch++
 		rs, err := e.open(e.db)
 		if err != nil {
 			e.viol("C12", "reopen-error", nil, "reopening after a clean stop at version %d failed: %v", e.m.latest, err)
@@ -423,6 +469,12 @@ func (e *exec) commit(s *Step) {
 		if e.tr.Stores[i].Transient {
 			e.m.work[i] = content{}
 		}
+		if e.mounted(i) && e.m.first[i] == 0 {
+			e.m.first[i] = newV
+			if newV > 1 {
+				st.Probe("store_first_committed_at_later_version")
+			}
+		}
 	}
 	e.log = append(e.log, fmt.Sprintf("commit %d %x", id.Version, id.Hash))
 	nret := 0
@@ -434,7 +486,7 @@ func (e *exec) commit(s *Step) {
 	st.State(fmt.Sprintf("stores=%d latest=%d retained=%d pr=%d/%d", len(e.tr.Stores), e.m.latest, nret, e.tr.Pruning.KeepRecent, e.tr.Pruning.KeepEvery))
 	// transient stores are empty after every commit
 	for i, sc := range e.tr.Stores {
-		if sc.Transient {
+		if sc.Transient && e.mounted(i) {
 			got, _ := dump(e.rs.GetKVStore(e.keys[i]), false)
 			if len(got) != 0 {
 				e.viol("C12", "transient-empty-after-commit", nil, "transient store %s holds %d pairs after Commit", sc.Name, len(got))
@@ -461,6 +513,7 @@ func lastClass(log []string) string {
 // afterCrash: the process died before write event c.Event of the Commit of newV.
 func (e *exec) afterCrash(newV int64, snap []content, c simdb.Crash, prevLabel string) {
 	attrs := map[string]string{"crash_before": labelClass(c.Label), "crash_after": prevLabel, "height1": fmt.Sprint(newV == 1)}
+	e.crashed = true
 	e.db.Revive()
 	rs, err := e.open(e.db)
 	if err != nil {
@@ -480,6 +533,9 @@ func (e *exec) afterCrash(newV int64, snap []content, c simdb.Crash, prevLabel s
 		e.pendingOps = nil
 		for i := range e.m.work {
 			e.m.work[i] = snap[i].clone()
+			if e.mounted(i) && e.m.first[i] == 0 {
+				e.m.first[i] = newV
+			}
 		}
 		if !e.compareContent(rs, snap, "C13", "content-after-crash", attrs, fmt.Sprintf("reopened at the new version %d", newV)) {
 			e.dead = true
@@ -528,6 +584,9 @@ func (e *exec) afterCrash(newV int64, snap []content, c simdb.Crash, prevLabel s
 		e.pendingOps = nil
 		for i := range e.m.work {
 			e.m.work[i] = snap[i].clone()
+			if e.mounted(i) && e.m.first[i] == 0 {
+				e.m.first[i] = newV
+			}
 		}
 		if rid.Version != newV {
 			e.viol("C13", "replay-version", attrs, "the re-executed Commit returned version %d, expected %d", rid.Version, newV)
@@ -551,12 +610,17 @@ func (e *exec) loadVersion(v int64) {
 	rs.SetPruning(stypes.NewPruningOptions(e.tr.Pruning.KeepRecent, e.tr.Pruning.KeepEvery))
 	rs.SetLazyLoading(e.tr.Lazy)
 	for i, sc := range e.tr.Stores {
+		if !e.mounted(i) {
+			continue
+		}
 		typ := stypes.StoreTypeIAVL
 		if sc.Transient {
 			typ = stypes.StoreTypeTransient
 		}
 		rs.MountStoreWithDB(e.keys[i], typ, nil)
 	}
+	e.cmpV = v
+	defer func() { e.cmpV = 0 }()
 	var err error
 	func() {
 		defer func() {
@@ -599,6 +663,10 @@ func (e *exec) loadVersion(v int64) {
 				// readable although pruned is only a violation if the content is not that version's
 				if !e.compareContentQuiet(rs, e.m.versions[v]) {
 					e.viol("C12", "pruned-version-wrong-data", map[string]string{"kind": kind}, "LoadVersion(%d) succeeded for a pruned version and shows content that is not version %d's", v, v)
+				} else if !e.crashed {
+					// "versions the policy prunes become unreadable": without an interrupted commit in the history every
+					// store released the version when the policy said so
+					e.viol("C12", "pruned-version-readable", map[string]string{"kind": kind}, "LoadVersion(%d) succeeded although the policy (latest %d) pruned that version", v, e.m.latest)
 				} else {
 					e.res.Stats.Probe("pruned_version_still_readable")
 				}
@@ -611,7 +679,7 @@ func (e *exec) loadVersion(v int64) {
 
 func (e *exec) compareContentQuiet(rs *rootmulti.Store, want []content) bool {
 	for i, sc := range e.tr.Stores {
-		if sc.Transient {
+		if sc.Transient || !e.comparable(i, e.cmpV) {
 			continue
 		}
 		got, err := dump(rs.GetKVStore(e.keys[i]), false)
@@ -629,8 +697,8 @@ func (e *exec) compareContentQuiet(rs *rootmulti.Store, want []content) bool {
 // query: /<store>/key at height h with or without proof (C14).
 func (e *exec) query(s *Step) {
 	st := e.res.Stats
-	if s.Store < 0 || s.Store >= len(e.keys) || e.tr.Stores[s.Store].Transient {
-		return
+	if s.Store < 0 || s.Store >= len(e.keys) || e.tr.Stores[s.Store].Transient || e.tr.Stores[s.Store].From != 0 {
+		return // (a store mounted later numbers its versions from its own first commit: height queries on it are not generated)
 	}
 	name := e.tr.Stores[s.Store].Name
 	key := unhex(s.Key)
